@@ -7,6 +7,12 @@ generator      synthetic E(V) data (Birch–Murnaghan + optional noise, 5–12 d
                components of synth.SYSTEM_INDEPENDENT), `--cellmass` (≠ header), `--delta-p-sample`, `--v-ratio`.
 correspondence the REAL command (`cij.cli.static.main` through click's CliRunner, stdout parsed) against
                `CijModel/Static.lean` (`c18.run`): every column, the column order and the row labels.
+source tie     (tools/gens/static_src.py, `static_model_is_source…`): an option that is NOT on the command line is not sent to the
+               model either — the driver takes the default the click declaration in the source declares now; every fifth case (and every case of the added streams) the
+               driver also interprets the translated blocks of `main` and reports whether that is bit-identical to the model;
+               streams added because the tie showed them untested: the bare command / `-I pressure` with the declared defaults,
+               `--delta-p-sample` that is not a multiple of `--delta-p`, `--delta-p-sample` outside pressure mode and equal to 0,
+               small `--ntv` (edge stream).
 oracle         independent numpy evaluation of the property statement on the printed table: own Eulerian strains and own
                quadratic least squares (numpy.polyfit), analytic P = −dF/dV of that fit, F(V) on the fit, CODATA unit
                factors typed in below, own fit of every static column at the row's volume, VRH by contraction of the full
@@ -290,10 +296,29 @@ def draw_case(rng: numpy.random.Generator, force: Optional[dict] = None, thoroug
             dp_s = str(force["delta_p"])                   # e.g. "0.1": 0.3/0.1 = 2.9999999999999996 in floating point
         case["args"]["p_min"] = repr(p_min)
         case["args"]["delta_p"] = dp_s
-        if force.get("sample", rng.random() < 0.6):
+        if force.get("defaults_p"):
+            # `-I pressure` with the DECLARED --p-min / --delta-p (0 and 1.0 GPa), when the data cover 0 … ntv-1 GPa
+            if p_lo + 0.02 * span <= 0.0 and (ntv - 1) * 1.0 <= p_hi - 0.02 * span:
+                case["args"]["p_min"] = None; case["args"]["delta_p"] = None
+                case["declared"] = {"p_min": 0.0, "delta_p": 1.0}
+                dp_s = "1.0"
+        if force.get("sample_ratio") is not None:
+            # DELTA_P_SAMPLE that is NOT a multiple of DELTA_P: the step is the nearest whole number of grid intervals
+            ratio = Decimal(str(force["sample_ratio"]))
+            case["args"]["delta_p_sample"] = str(Decimal(dp_s) * ratio)
+            case["sample_ratio"] = float(ratio)
+        elif force.get("sample", rng.random() < 0.6):
             m = int(force.get("sample_m", rng.choice([1, 2, 3, 5, 7, 10])))
             case["args"]["delta_p_sample"] = str(Decimal(dp_s) * m)
             case["sample_m"] = m
+        if force.get("sample_zero"):
+            case["args"]["delta_p_sample"] = "0"; case.pop("sample_m", None)       # falsy: no sampling
+    elif force.get("sample_outside") is not None:
+        case["args"]["delta_p_sample"] = str(force["sample_outside"])      # ignored: the sampling is guarded by interp == "pressure"
+    if force.get("stream") and not (force.get("defaults_p") and "declared" not in case):
+        case["stream"] = force["stream"]
+    if force.get("bare"):
+        case["omit"] = [k for k, dflt in (("interp", "none"), ("ntv", 201)) if case["args"][k] == dflt]
     return case
 
 
@@ -320,7 +345,9 @@ def _argv(d: str, case: dict, with_table: bool, system="__case__") -> List[str]:
     a = case["args"]
     argv = [os.path.join(d, "input01")]
     if with_table: argv.append(os.path.join(d, "elast.dat"))
-    argv += ["-I", a["interp"], "-n", str(a["ntv"])]
+    omit = case.get("omit", [])
+    if "interp" not in omit: argv += ["-I", a["interp"]]
+    if "ntv" not in omit: argv += ["-n", str(a["ntv"])]
     if a.get("v_ratio") is not None: argv += ["--v-ratio", repr(float(a["v_ratio"]))]
     if a.get("p_min") is not None: argv += ["--p-min", str(a["p_min"])]
     if a.get("delta_p") is not None: argv += ["--delta-p", str(a["delta_p"])]
@@ -379,13 +406,17 @@ def model_op(case: dict) -> dict:
           "input01": {"nv": len(i1["volumes"]), "volumes": enc(i1["volumes"]), "energies": enc(i1["energies"])},
           "input02": None,
           "units": {k: enc(v) for k, v in _units().items()},
-          "options": {"interp": a["interp"], "ntv": int(a["ntv"]),
-                      "p_min": enc(float(a["p_min"]) if a.get("p_min") is not None else 0.0),
-                      "delta_p": enc(float(a["delta_p"]) if a.get("delta_p") is not None else 1.0),
+          # an option that is not on the command line is None here: the driver then uses the default DECLARED IN THE SOURCE
+          "options": {"interp": None if "interp" in case.get("omit", []) else a["interp"],
+                      "ntv": None if "ntv" in case.get("omit", []) else int(a["ntv"]),
+                      "p_min": enc(float(a["p_min"])) if a.get("p_min") is not None else None,
+                      "delta_p": enc(float(a["delta_p"])) if a.get("delta_p") is not None else None,
                       "delta_p_sample": enc(float(a["delta_p_sample"])) if a.get("delta_p_sample") is not None else None,
                       "cellmass": enc(float(a["cellmass"])) if a.get("cellmass") is not None else None,
-                      "v_ratio": enc(float(a["v_ratio"]) if a.get("v_ratio") is not None else 1.2),
+                      "v_ratio": enc(float(a["v_ratio"])) if a.get("v_ratio") is not None else None,
                       "system": a.get("system")}}
+    if case.get("check_source"):
+        op["check_source"] = True
     t = case["input02"]
     if t is not None:
         keys = []
@@ -523,10 +554,20 @@ def oracle(case: dict, impl: Optional[dict] = None) -> List[dict]:
             k = int(numpy.argmax(dP / tol))
             fails.append(_fail("P-is-minus-dF/dV-of-the-fit", float(dP[k]), f"<= {tol[k]:.3g} Ry/bohr3", row=k))
     else:
-        p_min, dp = float(a["p_min"]), float(a["delta_p"])
+        decl = case.get("declared") or {}
+        p_min = float(a["p_min"]) if a.get("p_min") is not None else float(decl["p_min"])     # documented defaults: 0 and 1.0 GPa
+        dp = float(a["delta_p"]) if a.get("delta_p") is not None else float(decl["delta_p"])
         step = 1
-        if a.get("delta_p_sample") is not None:
-            step = int(case.get("sample_m") or int(Decimal(str(a["delta_p_sample"])) / Decimal(str(a["delta_p"]))))
+        if case.get("sample_ratio") is not None:
+            # not a multiple of DELTA_P: equally spaced rows, the spacing being a whole number of grid intervals nearest to the
+            # requested one (either neighbour when the request lies exactly in the middle)
+            got = impl["index"]
+            r = float(case["sample_ratio"])
+            step = (got[1] - got[0]) if len(got) > 1 else max(1, round(r))
+            if not (step >= 1 and abs(step - r) <= 0.5 + 1e-9):
+                return [_fail("sampled-rows:nearest-multiple", got[:8], f"spacing within 0.5 of {r} grid intervals")]
+        elif a.get("delta_p_sample") is not None and float(a["delta_p_sample"]) != 0.0:
+            step = int(case.get("sample_m") or int(Decimal(str(a["delta_p_sample"])) / Decimal(str(dp))))
         labels = list(range(0, ntv, step))
         if impl["index"] != labels:
             return [_fail("sampled-rows", impl["index"][:8], labels[:8])]
@@ -733,6 +774,17 @@ def plan(ctx: Ctx, n: int) -> List[dict]:
     forced.append({"interp": "pressure", "table": True, "system": None, "ntv": 41, "sample": True, "sample_m": 3, "delta_p": "0.1"})
     forced.append({"interp": "pressure", "table": False, "system": None, "ntv": 22, "sample": True, "sample_m": 3, "delta_p": "0.4"})
     forced.append({"interp": "pressure", "table": False, "system": None, "ntv": 25, "sample": True, "sample_m": 3, "delta_p": "0.2"})
+    # ---- streams added with the source tie (counted in distribution["source_tie_streams"])
+    forced.append({"interp": "none", "table": False, "system": None, "ntv": 201, "bare": True, "v_ratio": None, "cellmass": None, "stream": "bare command"})
+    forced.append({"interp": "none", "table": True, "system": None, "ntv": 201, "bare": True, "v_ratio": None, "cellmass": None, "stream": "bare command"})
+    forced.append({"interp": "volume", "table": ctx.seed % 2 == 0, "system": None, "ntv": 201, "bare": True, "v_ratio": None, "stream": "-n omitted"})
+    forced.append({"interp": "pressure", "table": False, "system": None, "ntv": 11, "defaults_p": True, "sample": False, "stream": "declared --p-min/--delta-p"})
+    forced.append({"interp": "pressure", "table": True, "system": None, "ntv": 12, "defaults_p": True, "sample": True, "sample_m": 2, "stream": "declared --p-min/--delta-p"})
+    for k, r in enumerate(["2.4", "1.4", "3.6", "2.5", "1.5"][:(5 if ctx.thorough() else 3)]):
+        forced.append({"interp": "pressure", "table": k % 2 == 1, "system": None, "ntv": [21, 33, 25, 41, 15][k], "sample_ratio": r, "stream": "sampling interval not a multiple"})
+    forced.append({"interp": "volume", "table": False, "system": None, "ntv": 15, "sample_outside": "2.0", "stream": "--delta-p-sample outside pressure mode"})
+    forced.append({"interp": "none", "table": True, "system": None, "ntv": 21, "sample_outside": "3.0", "stream": "--delta-p-sample outside pressure mode"})
+    forced.append({"interp": "pressure", "table": False, "system": None, "ntv": 21, "sample": False, "sample_zero": True, "stream": "--delta-p-sample 0"})
     out = forced[:n]
     while len(out) < n:
         out.append({})
@@ -746,7 +798,8 @@ def _payload(case: dict, check: str) -> dict:
 def evaluate(ctx: Ctx, res: Result, cases: List[dict], budget_s: float, extras_every: int = 1):
     t0 = time.time()
     dist = res.distribution
-    for name in ("interp", "ntv", "table", "system", "cellmass", "sample", "nv", "table_rows", "outcome"):
+    for name in ("interp", "ntv", "table", "system", "cellmass", "sample", "nv", "table_rows", "outcome", "source_tie_streams",
+                 "source_interpreter", "options_left_to_declared_defaults"):
         dist.setdefault(name, {})
     pend = []
     shapes = set()
@@ -757,6 +810,14 @@ def evaluate(ctx: Ctx, res: Result, cases: List[dict], budget_s: float, extras_e
         a = case["args"]
         impl = run_impl(case)
         res.evaluations += 1
+        if case.get("stream"):
+            dist["source_tie_streams"][case["stream"]] = dist["source_tie_streams"].get(case["stream"], 0) + 1
+        if k % 5 == 0 or case.get("stream"):
+            case["check_source"] = True
+        left = [o for o in ("p_min", "delta_p", "v_ratio") if a.get(o) is None and (o == "v_ratio" or a["interp"] == "pressure")] \
+            + list(case.get("omit", []))
+        for o in left:
+            dist["options_left_to_declared_defaults"][o] = dist["options_left_to_declared_defaults"].get(o, 0) + 1
         desc = {"interp": a["interp"], "ntv": a["ntv"], "table": case["input02"] is not None, "system": a.get("system"),
                 "cellmass": a.get("cellmass") is not None, "sample": case.get("sample_m"),
                 "nv": len(case["input01"]["volumes"]),
@@ -793,6 +854,14 @@ def flush(ctx: Ctx, res: Result, pend):
     for (case, impl), r in zip(pend, ans):
         model = decode_model(r)
         why = compare(case, impl, model)
+        if case.get("check_source") and isinstance(r, dict) and "source_agrees" in r:
+            d = res.distribution.setdefault("source_interpreter", {})
+            key = "bit-identical to the model" if r["source_agrees"] else "DIFFERS from the model"
+            d[key] = d.get(key, 0) + 1
+            if not r["source_agrees"]:
+                res.disagreements.append(Disagreement("c18.run:source-interpreter", _payload(case, "correspondence:source-interpreter"),
+                                                      {"status": impl["status"]}, {"status": model["status"]},
+                                                      note="the interpretation of the translated blocks of main differs from Static.runWith on this input"))
         if why is None:
             res.traces_validated += 1
         else:
@@ -824,6 +893,12 @@ def edge_cases(rng: numpy.random.Generator) -> List[dict]:
     c = base({"interp": "pressure", "table": False, "system": None, "ntv": 11}); c["args"]["ntv"] = 3; c["edge"] = "ntv = 3 in pressure mode"
     out.append(c)
     c = base({"interp": "volume", "table": False, "system": None, "ntv": 11}); c["args"]["ntv"] = 1; c["edge"] = "ntv = 1"
+    out.append(c)
+    c = base({"interp": "pressure", "table": False, "system": None, "ntv": 11, "sample": False}); c["args"]["ntv"] = 4; c["edge"] = "ntv = 4 in pressure mode (smallest grid qha's v2p accepts)"
+    out.append(c)
+    c = base({"interp": "none", "table": True, "system": None, "ntv": 11}); c["args"]["ntv"] = 5; c["edge"] = "ntv = 5 in mode none (spline through 5 nodes)"
+    out.append(c)
+    c = base({"interp": "volume", "table": True, "system": None, "ntv": 11}); c["args"]["ntv"] = 7; c["edge"] = "ntv = 7 with a static table"
     out.append(c)
     c = base({"interp": "volume", "table": True, "system": None, "ntv": 11, "cellmass": 0.0}); c["edge"] = "--cellmass 0 (falsy)"
     out.append(c)
